@@ -383,6 +383,10 @@ int sqfs_xattr_reader_seek_kv(sqfs_xattr_reader_t *xr,
 	sqfs_u32 offset = desc->xattr & 0xFFFF;
 	sqfs_u64 block = xr->xattr_start + (desc->xattr >> 16);
 
+	/* no xattr table loaded: only the empty descriptor is valid */
+	if (xr->kvrd == NULL)
+		return desc->count == 0 ? 0 : SQFS_ERROR_OUT_OF_BOUNDS;
+
 	return sqfs_meta_reader_seek(xr->kvrd, block, offset);
 }
 
